@@ -135,6 +135,7 @@ class Check(object):
         self.obligations = []  # (name, ok, detail)
         self.trusted_base = list(KERNEL_TB)
         self.assumptions = []
+        self.notes = []  # operational notes (e.g. an evaluation shard that had to be re-run)
         self.coverage = {}
         self.samples = []
         self.evaluations = 0
@@ -341,6 +342,19 @@ class Check(object):
         self.checker_cmds.append('coqc -Q coq DTN build/cases/cases_%s_%s_*.v  (%d shard(s), %d case(s), Eval vm_compute)' % (
             self.prop_id, name, len(paths), len(cases)))
         subprocess.run(cmd, shell=True, cwd=shard_dir, stdout=subprocess.DEVNULL, stderr=subprocess.DEVNULL)
+        # a shard killed by a signal or by the timeout (memory pressure with 16 evaluators in parallel on a loaded
+        # machine) says nothing about the model: run it once more, alone; a Coq error (rc 1) is never retried
+        for path in paths:
+            try:
+                with open(path + '.rc') as infile:
+                    ret = int(infile.read().strip() or '1')
+            except (IOError, ValueError):
+                ret = 137
+            if ret in (124, 137, 139, 143) or ret < 0:
+                self.notes.append('model-evaluation shard %s ended with rc %d (killed); re-run alone' % (os.path.basename(path), ret))
+                subprocess.run('ulimit -s unlimited 2>/dev/null || ulimit -s 1000000 2>/dev/null; '
+                               'timeout %d coqc -Q %s DTN %s > %s.out 2>&1; echo $? > %s.rc' % (2 * timeout, COQ, path, path, path),
+                               shell=True, cwd=shard_dir, stdout=subprocess.DEVNULL, stderr=subprocess.DEVNULL)
         results = []
         for (path, shard) in zip(paths, shards):
             with open(path + '.rc') as infile:
@@ -441,7 +455,7 @@ class Check(object):
             seed=self.seed,
             level=self.level,
             coverage=cov,
-            assumptions=(assumptions or []) + self.assumptions,
+            assumptions=(assumptions or []) + self.assumptions + self.notes,
             wall_s=round(time.time() - self.start, 2),
             violations=len(self.violations),
         )
